@@ -333,8 +333,16 @@ class X12Reader(X12Base):
         @param seg_data: Segment data instance
         @type seg_data: L{segment<segment.Segment>}
         """
-        X12Base._parse_segment(self, seg_data)
         seg_id = seg_data.get_seg_id()
+        if seg_id in ('ISA', 'GS', 'ST'):
+            # A header must open directly inside its parent loop
+            parent = {'ISA': None, 'GS': 'ISA', 'ST': 'GS'}[seg_id]
+            cur_loop = self.loops[-1][0] if self.loops else None
+            if cur_loop != parent:
+                err_str = '{} segment found inside {}'.format(seg_id,
+                    'an open {} loop'.format(cur_loop) if cur_loop else 'no open loop')
+                self._isa_error('024', err_str)
+        X12Base._parse_segment(self, seg_data)
         if seg_id == 'IEA':
             while self.loops and self.loops[-1][0] != 'ISA':
                 # Unterminated GS or ST loop
